@@ -9,6 +9,8 @@ BIN=$(rustc +nightly --print sysroot)/lib/rustlib/x86_64-unknown-linux-gnu/bin
 OUT=${COV_OUT:-/tmp/zkmon-cov}
 PROPS=${*:-C01 C02 C03 C04 C05 C06 C07 C08 C09 C10 C11 C12 C13 C14 C15 C16 C17 C18 C19 C20}
 rm -rf "$OUT"; mkdir -p "$OUT/prof" "$OUT/w"
+# build scripts and proc macros are instrumented too: keep their profiles out of the source trees
+export LLVM_PROFILE_FILE="$OUT/prof/build-%p-%m.profraw"
 export CARGO_NET_OFFLINE=true CARGO_TARGET_DIR=$HERE/target-cov RUSTFLAGS="-Cinstrument-coverage"
 (cd "$HERE/harness" && cargo +nightly build --release --offline --quiet) || { echo "coverage build failed"; exit 2; }
 W=$CARGO_TARGET_DIR/release/zkmon
